@@ -1,8 +1,9 @@
 #!/bin/bash
-# tools/process_mutant.sh <prop> <mutant> "<checks>" : confirm a delivery from /tmp/mut/out and run checks against it
-P="$1"; M="$2"; CHECKS="${3:-$1}"
+# tools/process_mutant.sh <prop> <mutant> "<checks>" [delivery root] [delivered name]
+# confirm a delivery (default /tmp/mut/out/<prop>/<mutant>) and run checks against it
+P="$1"; M="$2"; CHECKS="${3:-$1}"; ROOT="${4:-/tmp/mut/out}"; SRCM="${5:-$2}"
 cd /verif
 if [ ! -f "seeded/$P/$M/confirm.txt" ] || ! grep -q CONFIRMED "seeded/$P/$M/confirm.txt"; then
-  tools/confirm_seeded.sh "/tmp/mut/out/$P/$M" "$P/$M" || { echo "NOT CONFIRMED $P/$M"; exit 1; }
+  tools/confirm_seeded.sh "$ROOT/$P/$SRCM" "$P/$M" || { echo "NOT CONFIRMED $P/$M"; exit 1; }
 fi
 tools/seeded.sh "$P/$M" "$CHECKS" quick 1
